@@ -13,6 +13,7 @@ struct BOp { uint16_t kind = 0; uint32_t a = 0, b = 0, c = 0; };
 struct Plan {
     uint64_t seed = 0, pool_seed = 1, sched_seed = 1;
     uint32_t mean_gap = 100, max_preemptions = 32;      // seeded schedule; mean_gap 0 = serial orders only
+    uint32_t victim = 0, victim_op = 0, runner = 0, offset = 0;   // window-targeted strategy when victim != 0
     std::vector<std::vector<BOp>> programs;             // one per caller thread
     std::vector<Switch> switches;                       // non-empty: explicit schedule (replay / minimised)
 };
@@ -33,7 +34,7 @@ uint64_t step_budget_for(const BOp &op);
 struct Viol { bool set = false; std::string cls, site, msg; };
 struct Totals {
     uint64_t runs = 0, events = 0, accesses = 0, preemptions = 0, switches = 0, ops = 0, sync_ops = 0;
-    uint64_t strategy[4] = {0};     // serial, rare, medium, frequent preemption
+    uint64_t strategy[5] = {0};     // serial, rare, medium, frequent preemption, window-targeted
 };
 struct RunResult { Viol viol; uint64_t sig = 0, sched_sig = 0; bool nontrivial = false; RunStats stats; std::vector<Switch> recorded; };
 RunResult run_plan(const Plan &p, Totals *tot);
